@@ -206,7 +206,11 @@ func genQuery(r *core.Rng, tr *Trace, nKeys int, latest int64) Step {
 	if r.Chance(0.7) {
 		k = keyPool[r.Intn(nKeys)]
 	}
-	return Step{Op: "query", Store: si, Key: hex.EncodeToString(k), Version: pickVersion(r, latest), Prove: r.Chance(0.6)}
+	v := pickVersion(r, latest)
+	if r.Chance(0.08) {
+		v = 0 // no height named
+	}
+	return Step{Op: "query", Store: si, Key: hex.EncodeToString(k), Version: v, Prove: r.Chance(0.6)}
 }
 
 func (Engine) Generate(property, tier string, seed uint64, idx uint64) []byte {
